@@ -162,6 +162,38 @@ class Repo:
         self._specialise_constant_params()
 
     # ----------------------------------------------------------------------------------------
+    def default_command_line(self, func):
+        """{parameter: constant} of a CLI entry function on the default command line: the value argparse hands over when
+        the option is not given (the option's `default=`; for a parameter without an option, the signature default).
+        Only numeric / string / bool / None constants; parameters reassigned in the function are left out."""
+        node = func.node
+        a = node.args
+        pos = a.posonlyargs + a.args
+        out = {}
+        for p_, d in list(zip(pos[len(pos) - len(a.defaults):], a.defaults)) + [(p_, d) for p_, d in zip(a.kwonlyargs, a.kw_defaults) if d is not None]:
+            if isinstance(d, ast.Constant):
+                out[p_.arg] = d.value
+        aa = func.module.funcs.get("add_arguments")
+        if aa is not None:
+            for c in walk_own(aa.node):
+                if isinstance(c, ast.Call):
+                    kw = {k.arg: k.value for k in c.keywords}
+                    dest = kw.get("dest")
+                    if isinstance(dest, ast.Constant) and dest.value in out:
+                        if "default" in kw:
+                            if isinstance(kw["default"], ast.Constant):
+                                out[dest.value] = kw["default"].value
+                            else:
+                                out.pop(dest.value)
+                        elif isinstance(kw.get("action"), ast.Constant) and kw["action"].value == "store_true":
+                            out[dest.value] = False
+                        elif isinstance(kw.get("action"), ast.Constant) and kw["action"].value == "store_false":
+                            out[dest.value] = True
+                        else:
+                            out[dest.value] = None
+        stored = {n.id for n in walk_own(node) if isinstance(n, ast.Name) and isinstance(n.ctx, ast.Store)}
+        return {k: v for k, v in out.items() if k not in stored}
+
     def signature_of(self, func, call):
         """(callee, parameter names the call's arguments bind to) for a call resolved to a program function: `self` is
         dropped for bound-method and constructor calls; None when unresolved."""
@@ -1774,6 +1806,78 @@ def fold_consts(func):
         return func
     ast.fix_missing_locations(root)
     return Func(func.module, func.qualname, root, func.cls, func.parent)
+
+
+def inline_callable_aliases(func):
+    """A Func in which a local bound to a plain callable name (`opener = gzip.open`) is replaced by that name where it is
+    called later in the same block (until rebound): `opener(p, "rt")` -> `gzip.open(p, "rt")`."""
+    import copy
+
+    node = copy.deepcopy(func.node)
+    changed = [False]
+
+    class Sub(ast.NodeTransformer):
+        def __init__(self, env):
+            self.env = env
+
+        def visit_Call(self, c):
+            self.generic_visit(c)
+            if isinstance(c.func, ast.Name) and c.func.id in self.env:
+                c.func = copy.deepcopy(self.env[c.func.id])
+                changed[0] = True
+            return c
+
+    def dotted(e):
+        return isinstance(e, ast.Name) or (isinstance(e, ast.Attribute) and dotted(e.value))
+
+    def block(stmts, env):
+        env = dict(env)
+        for st in stmts:
+            if isinstance(st, ast.Assign) and len(st.targets) == 1 and isinstance(st.targets[0], ast.Name) and dotted(st.value) and isinstance(st.value.ctx, ast.Load):
+                env[st.targets[0].id] = st.value
+                continue
+            if isinstance(st, (ast.FunctionDef, ast.AsyncFunctionDef, ast.ClassDef)):
+                continue
+            has_blocks = False
+            for fld in ("body", "orelse", "finalbody"):
+                lst = getattr(st, fld, None)
+                if isinstance(lst, list) and lst and isinstance(lst[0], ast.stmt):
+                    has_blocks = True
+            stored = {n.id for n in ast.walk(st) if isinstance(n, ast.Name) and isinstance(n.ctx, ast.Store)}
+            for k in stored & set(env):
+                del env[k]
+            if not env:
+                if has_blocks:
+                    for fld in ("body", "orelse", "finalbody"):
+                        lst = getattr(st, fld, None)
+                        if isinstance(lst, list) and lst and isinstance(lst[0], ast.stmt):
+                            block(lst, {})
+                    for h in getattr(st, "handlers", []):
+                        block(h.body, {})
+                continue
+            if has_blocks:
+                # headers (tests, iterables, context managers) see the current bindings; nested blocks continue with them
+                for fld in ("test", "iter", "items"):
+                    v = getattr(st, fld, None)
+                    if isinstance(v, ast.AST):
+                        setattr(st, fld, Sub(env).visit(v))
+                    elif isinstance(v, list):
+                        for it in v:
+                            Sub(env).visit(it)
+                for fld in ("body", "orelse", "finalbody"):
+                    lst = getattr(st, fld, None)
+                    if isinstance(lst, list) and lst and isinstance(lst[0], ast.stmt):
+                        block(lst, env)
+                for h in getattr(st, "handlers", []):
+                    block(h.body, env)
+            else:
+                Sub(env).visit(st)
+
+    block(node.body, {})
+    if not changed[0]:
+        return func
+    ast.fix_missing_locations(node)
+    return Func(func.module, func.qualname, node, func.cls, func.parent)
 
 
 def sink_into_branches(func):
